@@ -22,7 +22,7 @@ Explained(e) ==
          /\ PrintT(<<"MSG", "KNOWN", S, e.case>>)
 
 Next == /\ l <= Len(Rec)
-        /\ Explained(Rec[l])
+        /\ Explained(Rec[l]) = TRUE     \* evaluated as a value: no sub-action per disjunct
         /\ l' = l + 1
 Spec == Init /\ [][Next]_l
 
